@@ -29,6 +29,7 @@ RULE = (
     "%name% of an unescaped placeholder. Non-trivial = >= 2 placeholders in one value, or an "
     "unhandled placeholder, or regex position."
 )
+RULE += (" One of the placeholder names has 81 characters.")
 ASSUMPTIONS = [
     "vf/ref/modifiers.py defines which %name% sequences are placeholders",
     "variable values inserted into regular expressions are alphanumeric (insertion of regex "
@@ -269,7 +270,8 @@ def check_case(case: dict) -> Outcome:
     return out
 
 
-NAMES = ["a", "b", "c", "unk"]
+LONG = "privileged_service_account_names_tier0_" + "x" * 40  # 81 characters
+NAMES = ["a", "b", "c", "unk", LONG]
 
 
 @st.composite
@@ -306,7 +308,7 @@ def cases(draw):
     okval = st.one_of(st.sampled_from(["v1", "v2", "w", "7"]), st.integers(0, 9)) if pos == "regex" else st.one_of(
         st.sampled_from(["v1", "v2", "w*", "q?", "a b", "\\*"]), st.integers(0, 9), st.sampled_from([1.5]))
     vars_ = {}
-    for n in ["a", "b", "c"]:
+    for n in ["a", "b", "c", LONG]:
         if draw(st.integers(0, 5)):
             vals = draw(st.lists(okval, min_size=0 if draw(st.integers(0, 9)) == 0 else 1, max_size=3))
             if draw(st.integers(0, 11)) == 0:
